@@ -899,3 +899,24 @@ seed("C20", "C20-c", "C20.R6")
 seed("C10", "C10-c", "C10.R2")
 seed("C03", "C03-c", "C03.R7")
 seed("C07", "C07-c", "C07.R6")
+
+# round 4
+seed("C01", "C01-d", "C01.R5")
+seed("C10", "C02-d", "C10.R2")
+seed("C03", "C03-d", "C03.R1")
+seed("C04", "C04-d", "C04.R6")
+seed("C07", "C05-d", "C07.R3")
+seed("C07", "C07-d", "C07.R4")
+seed("C08", "C08-d", "C08.R7")
+seed("C09", "C09-d", "C09.R4")
+seed("C10", "C10-d", "C10.R1")
+seed("C11", "C11-d", "C11.R5")
+seed("C12", "C12-d", "C12.R2")
+seed("C13", "C13-d", "C13.R1")
+seed("C14", "C14-d", "C14.R1")
+seed("C15", "C15-d", "C15.R3")
+seed("C07", "C16-d", "C07.R4")
+seed("C17", "C17-d", "C17.R8")
+seed("C18", "C18-d", "C18.R3")
+seed("C19", "C19-d", "C19.R1")
+seed("C20", "C20-d", "C20.R1")
